@@ -19,6 +19,11 @@ def plan(chk):
         units += [dict(case="unit", family="fork_templates", coin=coin, seed=chk.seed, profile="release", big=chk.thorough)]
         units += [dict(case="unit", family="fork_templates", coin=coin, seed=chk.seed + 1, profile="debug", big=False)]
         units += sc.std_units([coin], chk.thorough, chk.seed + i, "release", scale=0.4)
+        # long evaluation history in one process (2^16+ distinct destinations on two coins, 6000 on the others), then old ones return
+        units += [dict(case="unit", family="recur_far", coin=coin, seed=chk.seed + i, profile="release", one_process=True,
+                       pool=(70000 if (chk.thorough or i == chk.seed % len(coins) or i == (chk.seed + 3) % len(coins)) else 6000))]
+        if i == (chk.seed + 1) % len(coins) or chk.thorough:
+            units += [dict(case="unit", family="recur_far", coin=coin, seed=chk.seed + i, profile="debug", one_process=True, pool=6000)]
     units += sc.std_units(coins[:2] if not chk.thorough else coins, False, chk.seed + 7, "debug", scale=0.1)
     n = 0
     for coin in coins:
